@@ -6,4 +6,7 @@ open LS
 theorem init_wf (st : List Bytes) (hst : ∀ t ∈ st, Valid t ∧ t.length ≤ STATIC_MAX_LEN) :
     Wf { statics := st } := wf_init st hst
 
+/-- guards of the capacity tests as in the source -/
+theorem guards : Gen.guardReserveUnique = ">=" ∧ Gen.guardWithCapacity = "<=" ∧ Gen.guardReserveInline = ">" := ⟨rfl, rfl, rfl⟩
+
 end LS.C11
